@@ -69,7 +69,7 @@ class RecHW(HardwareLayerBase):
         super().__init__()
         self.run = run
         self.mem: dict[str, Any] = {}
-        self.inputs: dict[str, Any] = {"In1": 0.0, "Tot": 0.0}
+        self.inputs: dict[str, Any] = {"In1": 0.0, "X": 0.0, "Tot": 0.0}     # X mirrors In1 (condition tag)
         self.wlog: list[tuple[int, str, Any, dict]] = []
         self._is_connected = True
 
@@ -136,6 +136,12 @@ def make_uod(run: "Run", totalizer=True):
         if cmd.get_iteration_count() >= 3:
             cmd.set_complete()
 
+    def set1(cmd: UodCommand, number, number_unit=None, **kw):
+        # instant variant of SetOut (C09): sets Out1 once and completes in the same tick
+        log(cmd, "exec")
+        cmd.context.tags["Out1"].set_value(float(number), run.now)
+        cmd.set_complete()
+
     def valve(cmd: UodCommand, option, **kw):
         log(cmd, "exec")
         cmd.context.tags["Out2"].set_value(option, run.now)
@@ -158,11 +164,13 @@ def make_uod(run: "Run", totalizer=True):
          .with_hardware(hw)
          .with_location("lab")
          .with_hardware_register("In1", RegisterDirection.Read)
+         .with_hardware_register("X", RegisterDirection.Read)
          .with_hardware_register("Tot", RegisterDirection.Read)
          .with_hardware_register("Out1", RegisterDirection.Write, safe_value=0.0)
          .with_hardware_register("Out2", RegisterDirection.Write, safe_value="Closed")
          .with_hardware_register("Free", RegisterDirection.Write)
          .with_tag(ReadingTag("In1", None))
+         .with_tag(ReadingTag("X", None))
          .with_tag(ReadingTag("Tot", "L"))
          .with_tag(Tag("Out1", value=0.0, unit=None, direction=TagDirection.Output))
          .with_tag(SelectTag("Out2", value="Closed", unit=None, choices=["Open", "Closed"], direction=TagDirection.Output))
@@ -175,6 +183,7 @@ def make_uod(run: "Run", totalizer=True):
          .with_command(name="OvB", exec_fn=ov, init_fn=init, finalize_fn=fin, arg_parse_fn=None)
          .with_command_overlap(["OvA", "OvB"])
          .with_command_regex_arguments("SetOut", RegexNumber(units=None), setout, init, fin)
+         .with_command_regex_arguments("Set1", RegexNumber(units=None), set1, init, fin)
          .with_command_regex_arguments("Valve", RegexCategorical(exclusive_options=["Open", "Closed"]), valve, init, fin)
          .with_command_regex_arguments("Dose", RegexNumber(units=["L", "mL"]), dose, init, fin)
          .with_command_regex_arguments("Boom", RegexNumber(units=None, non_negative=True, int_only=True), boom, init, fin)
@@ -343,6 +352,9 @@ class Run:
 
     def set_input(self, name, value):
         self.hw.inputs[name] = value
+        if name in ("In1", "X"):            # the condition tag X is fed from the same signal as In1
+            self.hw.inputs["In1"] = value
+            self.hw.inputs["X"] = value
 
     # -- observers ------------------------------------------------------------
     def method_state(self) -> dict:
